@@ -71,13 +71,23 @@ class _ScriptMixin:
         self.pend[i] = 0
         return r
 
+    # np_bools: answer with numpy booleans, as a simulation does that computes its done flags with
+    # numpy ((pos >= goal).any()); they are truthy/falsy like Python's but `x is True` is False
+    np_bools = False
+
+    def _b(self, v):
+        if self.np_bools:
+            import numpy as np
+            return np.bool_(v)
+        return v
+
     def get_done(self, agent_id, **kwargs):
         d = self.row()[0]
         i = aidx(agent_id)
-        return bool(d[i]) if i < len(d) else False
+        return self._b(bool(d[i]) if i < len(d) else False)
 
     def get_all_done(self, **kwargs):
-        return bool(self.row()[1])
+        return self._b(bool(self.row()[1]))
 
     def get_info(self, agent_id, **kwargs):
         return -(self.t * 100 + aidx(agent_id))
